@@ -163,6 +163,8 @@ def run_shard(spec, rep):
             _other_model_same_object(rep, case, fc)
             if not fc.from_membrane and index % 8 == 0:
                 _explicit_units(rep, case, fc, rng)
+            if index % 8 == 1:
+                _one_sided(rep, case, fc, rng, Permeance)
         except Exception as e:
             rep.harness_error(f"C02 judge: {e!r}", e)
 
@@ -194,6 +196,51 @@ def _explicit_units(rep, case, fc, rng):
     for r, ok in fits.items():
         if ok:
             rep.count("explicit_units_reading: " + r)
+
+
+def _one_sided(rep, case, fc, rng, Permeance):
+    """only ONE of the two permeances is stated.  The pinned library then takes both from the membrane (the stated one is
+    discarded); keeping the stated one and taking the other from the membrane is just as acceptable.  The missing one must come
+    from the membrane's data for THAT component, and the law must hold for both components."""
+    which = rng.choice([0, 1])
+    comps = (fc.mix.first_component, fc.mix.second_component)
+    try:
+        mem = [refmodel_kg(fc.membrane.get_permeance(fc.t_feed, c), c) for c in comps]
+    except Exception:
+        rep.count("one_sided_membrane_lookup_failed")
+        return
+    stated = mem[which] * rng.choice([0.25, 3.0])
+    kw = fc.kwargs(explicit_permeances=False)
+    kw["first_component_permeance" if which == 0 else "second_component_permeance"] = Permeance(value=stated)
+    try:
+        with guards.budget(SOFT_BUDGET), guards.tap() as taps:
+            j = fc.pv.calculate_partial_fluxes(**kw)
+        j = (float(j[0]), float(j[1]))
+        taps = list(taps)
+    except (Exception, guards.BudgetExceeded):
+        rep.count("one_sided_call_not_ok")
+        return
+    if not taps or not all(math.isfinite(v) for v in j):
+        return
+    ystar = taps[-1][0].p
+    fits = {}
+    for reading, own in (("stated permeance kept", stated), ("both from the membrane", mem[which])):
+        pair = [mem[0], mem[1]]
+        pair[which] = own
+        ok = False
+        for basis in (("weight", "molar") if fc.pp is not None else ("weight",)):
+            ref, pf, perm = ref_fluxes(fc, ystar, pair[0], pair[1], basis)
+            ok = ok or all(abs(j[i] - float(ref[i])) <= 1e-9 * pair[i] * max(abs(float(pf[i])), abs(float(perm[i]))) for i in (0, 1))
+        fits[reading] = ok
+    rep.require("one permeance stated, the other taken from the membrane: the law holds for both components", any(fits.values()),
+                dict(case, stated_component=which, stated_value=stated, membrane_permeances=mem), {"fluxes": j, "ystar": ystar, "fits": fits})
+    for r, ok in fits.items():
+        if ok:
+            rep.count("one_sided_reading: " + r)
+
+
+def refmodel_kg(permeance, component):
+    return gen.refmodel_permeance_kg(permeance, component)
 
 
 def _other_model_same_object(rep, case, fc):
